@@ -17,3 +17,7 @@ def run(run):
     gsm.bfs_slice(run, 'C11', 5 if quick else 6, keep=KEEP)
     gsm.simulate(run, 'C11', 14, 3000 if quick else 50000, keep=KEEP, timeout=300 if quick else 1800)
     gsm.driver_traces(run, 150 if quick else 2500)
+    if not quick:
+        from checks import c05
+        run.want_graph_traces = True
+        c05.repo_suite_traces(run)
